@@ -6,6 +6,16 @@ import subprocess
 
 VERIF = os.path.dirname(os.path.dirname(os.path.abspath(__file__)))
 LEVELS = {
+    "C09": ("PARTIAL. Proved: for every sequence of the registration operations (creation, deletion with __del__, replace_vertex) a vertex "
+            "lists a mesh edge / cell exactly when it exists and is attached to it; the model is tied to vertex.py / edge.py / cell.py by "
+            "exact comparison of ownEdges / ownCells after random operation sequences. Every parser, generate_mesh, join_two_vertices and "
+            "Frame are exercised by the oracle with all five clauses evaluated on the implementation objects after every step", "4/C09",
+            "Coq invariant over all operation sequences + exact correspondence + construction-path oracle (partial)"),
+    "C15": ("PARTIAL. cv2.findContours is a black box. Proved: vertices are interned by pixel position and there is one cell per contour "
+            "with one vertex per contour pixel (model compared on the actual OpenCV output). One cell per region, border flags, internal "
+            "interfaces, junction count, Frame construction and their equality under the 8 symmetries / padding / mirror_y are evaluated "
+            "by the oracle on square and honeycomb raster lattices (known topology) and the shipped images", "4/C15",
+            "Coq theorems on the post-contour logic + symmetry oracle (partial)"),
     "C17": ("PARTIAL. Proved: the window is the (2L+1)^2 square of distinct pixels centred on the vertex, the integrated band is summed over "
             "distinct pixels, 'average' normalisation gives mean one, values keep the order given. Model tied to get_intensities by exact "
             "rational correspondence; linearity in the image, uniform images and the polyline-length divisor are evaluated by the oracle",
